@@ -51,6 +51,11 @@ pub fn problems(a: &Audit) -> Vec<String> {
     p
 }
 
+/// Only what the walk itself can judge (errors, shape of each tree); ownership is decided by the specification.
+pub fn problems_structure(a: &Audit) -> Vec<String> {
+    problems(a).into_iter().filter(|p| !p.contains("is used twice") && !p.contains("leaked") && !p.contains("first_free") && !p.contains("last_free")).collect()
+}
+
 pub fn summary(a: &Audit) -> Value {
     let pr = problems(a);
     json!({"total_pages": a.total_pages, "free": a.free_list.len(), "trees": a.trees.iter().map(|t| json!({"name": t.name, "oid": t.object_id, "root": t.root,
@@ -60,4 +65,9 @@ pub fn summary(a: &Audit) -> Value {
 
 pub fn run(db: &Database) -> Value {
     summary(&audit(db))
+}
+
+pub fn dump(db: &Database) -> Value {
+    let a = audit(db);
+    json!(a.trees.iter().map(|t| json!({"name": t.name, "root": t.root, "pages": t.pages.iter().map(|p| format!("{}{}[{}] kids{:?} prev{:?} next{:?} ovf{:?} free{}", if p.leaf {"L"} else {"I"}, p.id, p.slots, p.children, p.prev, p.next, p.overflow_heads, p.free_space)).collect::<Vec<_>>(), "errors": t.errors})).collect::<Vec<_>>())
 }
